@@ -1,13 +1,27 @@
-"""C09 family: pixel-aperture histories.
+"""C09 family: pixel-aperture histories on a *pool* of related apertures.
 
-A live aperture receives reads (bbox, area, shape, isscalar, len, to_mask,
-do_photometry, area_overlap, repr, indexing, copy, parameter read-back)
-interleaved with re-assignments of every constructor parameter (positions scalar
-<-> multi, r / a / b / theta / w / h, annulus radii).  The harness keeps its own
-record of the currently assigned parameters; after every step the read is
-compared exactly with the same read on a fresh aperture constructed from that
-record.  Invalid assignments (documented ValueError/TypeError) must leave the
-object unchanged.
+The pool starts with one aperture (half of the time built from a caller-owned
+float64 positions array) and grows by parent[i], parent[a:b], iteration and
+copy(), created before and after reads.  Steps on a randomly chosen member:
+
+* reads (bbox, area, shape, isscalar, len, to_mask / do_photometry /
+  area_overlap with varying method arguments, repr, indexing, iteration, copy,
+  parameter read-back, == fresh);
+* plain re-assignment of every constructor parameter (positions scalar <->
+  multi, r / a / b / theta / w / h, annulus radii), 15 % invalid ones that must
+  raise and leave the object unchanged;
+* augmented in-place updates `+=`, `-=`, `*=` of every parameter (for positions
+  and theta this mutates the stored object in place and THEN calls the setter).
+
+Two judgements at every read and, after every update, on every OTHER member too:
+ (i)  the parameters the object REPORTS equal the harness record of what was
+      assigned to that object (an update of one member must not move another);
+ (ii) the value read equals the same read on a fresh aperture built from the
+      parameters the object reports at that moment (no stale cache).
+Document-silent operations are counted, not judged: item assignment on the array
+returned by `.positions`, and the caller editing the array an aperture was built
+from (the docs neither promise a copy nor a view); the member is retired
+afterwards.
 """
 from __future__ import annotations
 
@@ -140,69 +154,260 @@ def _read(ap, what, arg):
     raise RuntimeError(what)
 
 
+AUG_OPS = ['+=', '-=', '*=']
+
+
+class _Slot:
+    def __init__(self, obj, model, origin):
+        self.obj, self.model, self.origin = obj, model, origin
+        self.alive = True
+        self.last = 'none'          # last update applied to THIS member
+        self.tgroup = 0             # members created by indexing/iteration receive the parent's theta object
+        self.theta_dirty = False    # a member of the same theta group was updated in place since the last
+        #                             update of this member (mechanism key only)
+
+
+def _reported(ap):
+    import copy
+    return {p: copy.deepcopy(getattr(ap, p)) for p in ap._params}
+
+
+def _theta_q(v):
+    import astropy.units as u
+    return v if isinstance(v, u.Quantity) else v * u.rad
+
+
+def _aug_value(rng, model, name, op):
+    """(operand, expected new value) for `obj.<name> <op> operand`, or None if no valid choice."""
+    import astropy.units as u
+    if name == 'positions':
+        cur = np.asarray(model['positions'], dtype=float)
+        if op == '*=':
+            val = float(np.round(rng.uniform(0.8, 1.3), 2))
+            return val, cur * val
+        val = np.round(rng.uniform(-4, 4, 2), 2) if rng.random() < 0.6 else np.round(rng.uniform(-4, 4, cur.shape), 2)
+        if rng.random() < 0.3:
+            val = np.round(val)                 # integer shifts
+        return val, (cur + val if op == '+=' else cur - val)
+    if name == 'theta':
+        cur = _theta_q(model['theta'])
+        if op == '*=':
+            val = float(np.round(rng.uniform(0.5, 1.5), 2))
+            return val, cur * val
+        val = float(np.round(rng.uniform(0.05, 1.0), 3)) * (u.rad if rng.random() < 0.5 else u.deg)
+        return val, (cur + val if op == '+=' else cur - val)
+    cur = float(model[name])
+    if op == '*=':
+        val = float(np.round(rng.uniform(0.6, 1.5), 2))
+        new = cur * val
+    else:
+        val = float(np.round(rng.uniform(0.1, 2.0), 2))
+        new = cur + val if op == '+=' else cur - val
+    if not new > 0:
+        return None
+    if name in PAIRS:
+        lo, hi = PAIRS[name]
+        trial = dict(model)
+        trial[name] = new
+        if not trial[lo] < trial[hi]:
+            return None
+    return val, new
+
+
+def _apply_aug(obj, name, op, val):
+    # the real augmented-assignment statement (get, in-place operator, set)
+    if op == '+=':
+        exec(f'obj.{name} += val', {'obj': obj, 'val': val})
+    elif op == '-=':
+        exec(f'obj.{name} -= val', {'obj': obj, 'val': val})
+    else:
+        exec(f'obj.{name} *= val', {'obj': obj, 'val': val})
+
+
 def run(case, group):
+    import copy
+
+    import photutils.aperture as pa
     rng = case.rng
     names = TYPES[group]
     tname = names[int(rng.integers(0, len(names)))]
+    cls = getattr(pa, tname)
     n = int(rng.integers(12, 30))
     data = rng.normal(5, 1, (n, n + int(rng.integers(0, 5))))
     error = np.abs(rng.normal(1, 0.2, data.shape)) if rng.random() < 0.5 else None
     mask = (rng.random(data.shape) < 0.1) if rng.random() < 0.4 else None
-    model = _initial(rng, tname, n)
-    pnames = list(model.keys())
+    model0 = _initial(rng, tname, n)
+    pnames = list(model0.keys())
 
-    nsteps = int(rng.integers(6, 16))
-    live = _make(tname, model)
+    # root: half of the time from a caller-owned float64 array (kept by the harness)
+    caller_arr = None
+    if rng.random() < 0.5:
+        caller_arr = np.array(model0['positions'], dtype=np.float64)
+        kw = {k: copy.deepcopy(v) for k, v in model0.items()}
+        kw['positions'] = caller_arr
+        root = cls(**kw)
+    else:
+        root = _make(tname, model0)
+    model0 = dict(model0, theta=_theta_q(model0['theta'])) if 'theta' in model0 else model0
+    pool = [_Slot(root, model0, 'root')]
+    tgroups = [0]
     log = []
-    nassign = nreads_after = 0
-    last_set = None
+    nupd = nreads_after = 0
+
+    def judge(slot, what, arg, other_updated):
+        """(i) reported parameters vs record, (ii) the read vs a fresh aperture from the reported parameters."""
+        ap = slot.obj
+        rep = _reported(ap)
+        mech = {'family': 'aperture', 'type': tname, 'attr': what, 'after': slot.last, 'object': slot.origin,
+                'other_member_updated': bool(other_updated), 'scalar': np.ndim(rep['positions']) == 1,
+                'shared_theta_moved': bool(slot.theta_dirty)}
+        for pn in pnames:
+            ok, _, why = O.deep_same(O.canon(rep[pn]), O.canon(slot.model[pn]))
+            case.check(ok, 'aperture_params_vs_record', dict(mech, param=pn), why=why)
+            if not ok and pn == 'theta' and slot.theta_dirty:
+                slot.model['theta'] = copy.deepcopy(rep['theta'])     # follow the object to keep judging the rest
+        fresh = cls(**copy.deepcopy(rep))
+        if what == 'eq_fresh':
+            case.check(bool(ap == fresh) and not bool(ap != fresh), 'aperture_eq_fresh', mech)
+            return
+        o_live = O.request(lambda: _read(ap, what, arg), expected=(TypeError,))
+        o_fresh = O.request(lambda: _read(fresh, what, arg), expected=(TypeError,))
+        O.compare(case, o_live, o_fresh, 'aperture_read_vs_fresh', mech, devname='aperture:' + what)
+        case.note('aperture_reads')
+
+    def sweep(updated):
+        """after an update of one member: every other member must be untouched and un-stale."""
+        for sl in pool:
+            if sl.alive and sl is not updated:
+                what = ['bbox', 'to_mask', 'do_photometry'][int(rng.integers(0, 3))]
+                judge(sl, what, {'method': 'exact', 'subpixels': 3, 'data': data, 'error': error, 'mask': mask}, True)
+                case.note('aperture_sweep_reads')
+
+    nsteps = int(rng.integers(8, 20))
     for _ in range(nsteps):
+        alive = [sl for sl in pool if sl.alive]
+        if not alive:
+            break
+        slot = alive[int(rng.integers(0, len(alive)))]
+        ap, model = slot.obj, slot.model
         r = rng.random()
-        if r < 0.35:
-            # ---- assignment ------------------------------------------------------
+        if r < 0.18:
+            # ---- plain assignment ------------------------------------------------
             name = pnames[int(rng.integers(0, len(pnames)))]
             if rng.random() < 0.15:
                 bad = _invalid_value(rng, name)
-                out = O.request(lambda: setattr(live, name, bad), expected=(ValueError, TypeError))
-                log.append(['set_invalid', name])
-                mech = {'family': 'aperture', 'type': tname, 'op': 'set_invalid', 'param': name}
+                out = O.request(lambda: setattr(ap, name, bad), expected=(ValueError, TypeError))
+                log.append(['set_invalid', slot.origin, name])
                 case.check((not out.ok) and out.etype in ('ValueError', 'TypeError'),
-                           'aperture_invalid_assignment_rejected', mech, got=out.etype)
-                # state must be untouched: judged by the reads that follow
+                           'aperture_invalid_assignment_rejected',
+                           {'family': 'aperture', 'type': tname, 'op': 'set_invalid', 'param': name}, got=out.etype)
                 continue
             val = _new_value(rng, model, name, n)
-            import copy
-            setattr(live, name, copy.deepcopy(val))
-            model[name] = val
-            last_set = name
-            nassign += 1
-            log.append(['set', name])
-            continue
-        # ---- read ------------------------------------------------------------------
-        what = READS[int(rng.integers(0, len(READS)))]
-        arg = {'method': str(rng.choice(['exact', 'center', 'subpixel'])), 'subpixels': int(rng.integers(1, 6)),
-               'data': data, 'error': error, 'mask': mask}
-        if what in ('getitem',):
-            npos = np.atleast_2d(model['positions']).shape[0]
-            arg['index'] = int(rng.integers(0, npos)) if rng.random() < 0.6 else slice(0, int(rng.integers(1, npos + 1)))
-        fresh = _make(tname, model)
-        if what == 'eq_fresh':
-            # the live aperture must compare equal to an aperture built from the current parameters
-            mech = {'family': 'aperture', 'type': tname, 'attr': '__eq__', 'after_set': last_set,
-                    'scalar': np.ndim(model['positions']) == 1}
-            case.check(bool(live == fresh) and not bool(live != fresh), 'aperture_eq_fresh', mech)
-            log.append(['read', what])
-            continue
-        o_live = O.request(lambda: _read(live, what, arg), expected=(TypeError,))
-        o_fresh = O.request(lambda: _read(fresh, what, arg), expected=(TypeError,))
-        mech = {'family': 'aperture', 'type': tname, 'attr': what, 'after_set': last_set,
-                'scalar': np.ndim(model['positions']) == 1}
-        O.compare(case, o_live, o_fresh, 'aperture_read_vs_fresh', mech, devname='aperture:' + what)
-        log.append(['read', what])
-        case.note('aperture_reads')
-        if nassign:
-            nreads_after += 1
-    case.params = dict(type=tname, n=n, steps=log, has_error=error is not None, has_mask=mask is not None)
-    case.digest = core.arr_digest(data, error, mask) + core.digest([tname, log, {k: np.asarray(getattr(v, 'value', v)).tolist()
-                                                                               for k, v in model.items()}])
+            setattr(ap, name, copy.deepcopy(val))
+            model[name] = _theta_q(val) if name == 'theta' else val
+            slot.last = 'set:' + name
+            slot.theta_dirty = False
+            if name == 'theta':
+                tgroups[0] += 1
+                slot.tgroup = tgroups[0]
+            nupd += 1
+            log.append(['set', slot.origin, name])
+            sweep(slot)
+        elif r < 0.40:
+            # ---- augmented in-place update -----------------------------------------
+            name = pnames[int(rng.integers(0, len(pnames)))]
+            op = AUG_OPS[int(rng.integers(0, 3))]
+            got = _aug_value(rng, model, name, op)
+            if got is None:
+                continue
+            val, new = got
+            _apply_aug(ap, name, op, copy.deepcopy(val))
+            model[name] = new
+            slot.last = f'aug:{name}{op}'
+            slot.theta_dirty = False
+            if name == 'theta':
+                for other in pool:
+                    if other is not slot and other.alive and other.tgroup == slot.tgroup:
+                        other.theta_dirty = True
+            nupd += 1
+            log.append(['aug', slot.origin, name, op])
+            case.note('aperture_augmented_updates')
+            sweep(slot)
+        elif r < 0.50 and len(pool) < 5:
+            # ---- new related member --------------------------------------------------
+            rep_pos = np.asarray(model['positions'], dtype=float)
+            kinds = ['copy']
+            if rep_pos.ndim == 2:
+                kinds += ['index', 'slice', 'iter', 'index', 'slice']
+            kind = kinds[int(rng.integers(0, len(kinds)))]
+            if kind == 'copy':
+                child, cpos = ap.copy(), rep_pos.copy()
+            elif kind == 'index':
+                i = int(rng.integers(0, len(rep_pos)))
+                child, cpos = ap[i], rep_pos[i].copy()
+            elif kind == 'slice':
+                i0 = int(rng.integers(0, len(rep_pos)))
+                i1 = int(rng.integers(i0 + 1, len(rep_pos) + 1))
+                child, cpos = ap[i0:i1], rep_pos[i0:i1].copy()
+            else:
+                items = list(ap)
+                i = int(rng.integers(0, len(items)))
+                child, cpos = items[i], rep_pos[i].copy()
+            cm = {k: copy.deepcopy(v) for k, v in model.items()}
+            cm['positions'] = cpos
+            cs = _Slot(child, cm, kind)
+            if kind == 'copy':
+                tgroups[0] += 1
+                cs.tgroup = tgroups[0]
+            else:
+                cs.tgroup = slot.tgroup
+            pool.append(cs)
+            log.append(['spawn', slot.origin, kind])
+            case.note('aperture_members_spawned')
+        elif r < 0.53:
+            # ---- item assignment on the array returned by .positions (docs silent: count only) ----
+            before = O.request(lambda: _read(ap, 'bbox', None))
+            arr = ap.positions
+            if arr.ndim == 1:
+                arr[0] += 7.0
+            else:
+                arr[0, 0] += 7.0
+            rep = _reported(ap)
+            fresh = cls(**copy.deepcopy(rep))
+            after = O.request(lambda: _read(ap, 'bbox', None))
+            exp = O.request(lambda: _read(fresh, 'bbox', None))
+            same_as_fresh = O.deep_same(O.canon(after.value), O.canon(exp.value))[0] if after.ok and exp.ok else False
+            case.note('aperture_item_assignment:' + ('bbox_follows' if same_as_fresh else 'bbox_stale'))
+            _ = before
+            slot.alive = False
+            log.append(['item_assign', slot.origin])
+            sweep(slot)
+        elif r < 0.57 and caller_arr is not None and pool[0].alive:
+            # ---- the caller edits the array the root was built from (docs silent: count only) ----
+            caller_arr += 5.0
+            rootslot = pool[0]
+            moved = not O.deep_same(O.canon(_reported(rootslot.obj)['positions']),
+                                    O.canon(rootslot.model['positions']))[0]
+            case.note('aperture_caller_array_edit:' + ('aperture_moved' if moved else 'aperture_unaffected'))
+            if moved:
+                rootslot.alive = False
+            caller_arr = None
+            log.append(['caller_edit'])
+            sweep(rootslot)
+        else:
+            # ---- read ------------------------------------------------------------------
+            what = READS[int(rng.integers(0, len(READS)))]
+            arg = {'method': str(rng.choice(['exact', 'center', 'subpixel'])), 'subpixels': int(rng.integers(1, 6)),
+                   'data': data, 'error': error, 'mask': mask}
+            if what == 'getitem':
+                npos = np.atleast_2d(model['positions']).shape[0]
+                arg['index'] = int(rng.integers(0, npos)) if rng.random() < 0.6 else slice(0, int(rng.integers(1, npos + 1)))
+            judge(slot, what, arg, False)
+            log.append(['read', slot.origin, what])
+            if nupd:
+                nreads_after += 1
+    case.params = dict(type=tname, n=n, steps=log, has_error=error is not None, has_mask=mask is not None,
+                       root_from_caller_array=caller_arr is not None or any(l[0] == 'caller_edit' for l in log))
+    case.digest = core.arr_digest(data, error, mask) + core.digest([tname, log, [
+        {k: np.asarray(getattr(v, 'value', v)).tolist() for k, v in sl.model.items()} for sl in pool]])
     case.nontrivial = nreads_after >= 1
